@@ -795,11 +795,13 @@ func (ex *Exec) execFrom(f *frame, st *State, b *ssa.BasicBlock, start int, from
 				// the callee's return paths are continued separately (keeps slice offsets exact)
 				for _, r := range fk.rets {
 					r.st.regs[x] = tupleOf(r.vals)
+					f.runGhostAfterCall(r.st, x, r.st.regs[x])
 					ex.execFrom(f, r.st, b, i+1, from)
 				}
 				return
 			}
 			st.regs[x] = v
+			f.runGhostAfterCall(st, x, v)
 		case *ssa.Phi:
 			idx := -1
 			for k, p := range b.Preds {
